@@ -58,7 +58,8 @@ theorem restore_nodes_of_good {src : List SrcEntry} {s : Store} (hg : ArchiveGoo
       ((restore H (.specified b) [slash] (fun _ => false)).run (World.clean s)).2.events = [] := by
   have hmem := mem_bandIds_of_readable hg.st.dirsOk hread
   have hsilent : listErrors s b = [] :=
-    C08.stitch_silent b fun c hc => hg.bands c (mem_chain_bandIds hg.st.dirsOk hmem hc)
+    C08.stitch_silent b (fun c hc => hg.bands c (mem_chain_bandIds hg.st.dirsOk hmem hc))
+      (fun c _ => hg.headLost_false c)
   have hP : restoreP H s [] (listSpec s b) = (.ok ((listSpec s b).map (nodeOf H s)), []) :=
     restoreP_nodes hnb (listSpec s b) [] (fun _ h => h) (fun _ h => nomatch h)
       (fun e he => listed_usable he) (fun e he _ => listed_readable hg.noDangling he)
